@@ -133,7 +133,19 @@ func (p *Machine) Run(instructions []byte, localSubrs, globalSubrs [][]byte, han
 	p.ArgStack.Top = 0
 	p.callStack.top = 0
 
-	for nbOperators := 0; len(p.instructions) > 0; {
+	for nbOperators := 0; ; {
+		if len(p.instructions) == 0 {
+			if p.callStack.top == 0 {
+				break
+			}
+			// the end of a subroutine is an implicit return
+			// (CFF2 charstrings have no return operator)
+			if err := p.Return(); err != nil {
+				return err
+			}
+			continue
+		}
+
 		// Push a numeric operand on the stack, if applicable.
 		if hasResult, err := p.parseNumber(); hasResult {
 			if err != nil {
